@@ -36,7 +36,6 @@ _spec.loader.exec_module(KT)
 
 KERNEL_NAMES = [k for k, _, _ in KT.KERNELS]
 TWO_SIDED = {"cauchy", "normal", "logistic", "hyperbolic_secant", "exponential_power"}
-HAS_SHAPE = {"weibull", "gamma", "exponential_power", "power_law"}
 CLOSED_FORM = {"cauchy", "exponential", "weibull", "logistic", "hyperbolic_secant", "power_law"}
 # |cdf(icdf(u)) - u| allowed: exact closed forms / Winitzki's approximation of
 # the inverse error function / Newton iteration that stops at 0.001
@@ -580,9 +579,9 @@ def check(ctx, replay=None):
         ctx.broke("proof obligations of Properties_%s.v%s" % (pid, (" (" + ctx.proof.failed_theorem + ")") if ctx.proof.failed_theorem else ""),
                   "\n".join(ctx.proof.problems) + "\n" + ctx.proof.log[-2500:])
     # the translated formulas (also regenerated by vc.prove through translate_all)
-    funcs, det = None, None
+    funcs = None
     try:
-        _text, funcs, _skipped, det = KT.generate(vc.REPO)
+        funcs = KT.generate(vc.REPO)[1]
     except KT.TranslateError as e:
         ctx.broke("translator: a region of the headers no longer parses", str(e))
         funcs = {}
@@ -721,9 +720,8 @@ def check(ctx, replay=None):
                     v = parse_hex(vt)
                     try:
                         e = KT.eval_function(f, MEMBERS[kern](scale, shape), x)
-                    except Exception as ex:  # noqa: BLE001
+                    except Exception:  # noqa: BLE001
                         e = float("nan")
-                        _ = ex
                     same = (v != v and e != e) or v == e or (abs(v - e) <= 1e-9 * max(abs(v), abs(e)))
                     if not same:
                         ctx.broke("translator validation: %s_%s" % (kern, "icdf" if kind == "Q" else "pdf"),
@@ -879,7 +877,7 @@ def check(ctx, replay=None):
                 ctx.broke("correspondence maximum distance: translated icdf vs implementation",
                           "case #%d: %s\nimplementation max_distance %.12g, translated icdf %.12g" % (k, cases[k][:200], wc["maxd"], e))
                 break
-    stats["translator_functions_validated"] = len([1 for kf in (funcs or {})])
+    stats["translator_functions_validated"] = len(funcs or {})
 
     rel = cases[:nval]
     nontrivial = set()
